@@ -256,7 +256,8 @@ def r3(F, R):
         return
     from . import deep as D
     n = 0
-    for b in F.bodies.values():
+    seq = {}
+    for b in sorted(F.bodies.values(), key=lambda x: x.span or ""):
         if b.crate != "cucumber_verif_zoo":
             continue
         for s, t in b.calls(lambda t: callee_is(t, r"Iterator::fold$")):
@@ -291,7 +292,15 @@ def r3(F, R):
                     else:
                         ok, why = False, "the fold does not test the group for emptiness"
             ok = ok and seen == {"kept", "taken", "skipped"}
-            R.check(ok, f"first-non-empty-group/{F.root_fn(b).short[-40:]}", s, "acc.or_else(|| (!s.is_empty()).then_some(s))", why or f"fold cases seen: {sorted(seen)}")
+            # stable instance name: the annotated fn this expansion calls + the ordinal of the fold in it
+            top = F.root_fn(b)
+            fn_name = None
+            for nb in F.nested(top):
+                for _, t2 in nb.calls():
+                    if callee_path(t2) in ZOO:
+                        fn_name = callee_path(t2)
+            seq[fn_name] = seq.get(fn_name, 0) + 1
+            R.check(ok, f"first-non-empty-group/{fn_name or top.short[-30:]}#{seq[fn_name]}", s, "acc.or_else(|| (!s.is_empty()).then_some(s))", why or f"fold cases seen: {sorted(seen)}")
     R.floor(8)
 
 
